@@ -177,7 +177,7 @@ def r2(run, db):
         for site, s in f.stmts():
             if s["k"] == "assign" and s["rv"]["k"] == "bin" and s["rv"]["op"].startswith("Mul"):
                 run.fail("mul-plain:%s" % f.id.split("::")[-1], "tokens are computed with a plain `*` (overflow panics in debug / wraps in release); use saturating_mul", f.where(s.get("l")))
-    run.anchor("balance stores", nst, 4)
+    run.anchor("balance stores", nst, 3)
     # a due refresh always moves the deadline: otherwise the same elapsed interval is credited again later (C15-4)
     rf = [f for f in core if f.id.endswith("::refresh")]
     for f in rf:
